@@ -78,7 +78,8 @@ def determinism(checks, n):
 
 
 def main(what, checks='', seeds=40):
-    cids = [c.upper() for c in checks.split(',') if c] or available()
+    given = [c.upper() for c in checks.split(',') if c]
+    cids = given or available()
     if what == 'digests':
         seams.install()
         print(json.dumps(digests(cids[0], seeds)))
@@ -89,5 +90,5 @@ def main(what, checks='', seeds=40):
         return determinism(cids, seeds)
     if what == 'mutants':
         from . import mutants
-        return mutants.main(cids)
+        return mutants.main(given)
     return 2
